@@ -19,7 +19,7 @@ RM == INSTANCE RedisModel
 Trace == ndJsonDeserialize(TraceFile)
 MaxConn == 8
 Fresh == [c \in 0..(MaxConn - 1) |-> Idle]
-Cfg0 == [requirepass |-> FALSE, pw |-> <<>>, authdouble |-> FALSE, custom |-> {}, tracer |-> FALSE, rec |-> TRUE, model |-> FALSE, mconns |-> {}]
+Cfg0 == [requirepass |-> FALSE, pw |-> <<>>, authdouble |-> FALSE, custom |-> {}, tags |-> <<>>, tracer |-> FALSE, rec |-> TRUE, model |-> FALSE, mconns |-> {}]
 NoStore == [d \in {} |-> 0]
 NoScan == [on |-> FALSE, pat |-> <<>>, seen |-> {}, cur |-> 0]
 Conf0 == [p |-> NoStore, scan |-> NoScan]
@@ -112,7 +112,7 @@ StoreDumpOK(e) ==
 Handle(e) ==
   CASE e.ev = "scenario" ->
          /\ cfg' = [requirepass |-> e.requirepass, pw |-> e.pw, authdouble |-> e.authdouble,
-                    custom |-> IF e.customexec THEN {"MYCMD"} ELSE {}, tracer |-> e.tracer, rec |-> e.handler = "rec", model |-> e.model,
+                    custom |-> IF e.customexec THEN {"MYCMD"} ELSE {}, tags |-> [n \in {"MYCMD"} |-> "MyCmd"], tracer |-> e.tracer, rec |-> e.handler = "rec", model |-> e.model,
                     mconns |-> {e.modelconns[i] : i \in 1..Len(e.modelconns)}]    \* {} = every connection is judged against the model
          /\ conn' = Fresh /\ store' = NoStore /\ conf' = Conf0
     [] e.ev = "open"      -> ~conn[e.c].opened /\ conn' = [conn EXCEPT ![e.c] = NewConn(cfg.requirepass)] /\ UNCHANGED <<cfg, store, conf>>
@@ -121,6 +121,9 @@ Handle(e) ==
     [] e.ev = "halfclose" -> Upd(e.c, OnEos(conn[e.c], "half"))
     [] e.ev = "fullclose" -> Upd(e.c, OnEos(conn[e.c], "full"))
     [] e.ev = "wfail"     -> UNCHANGED <<conn, cfg, store, conf>>
+    [] e.ev = "register"  -> /\ cfg' = [cfg EXCEPT !.custom = @ \cup {e.name},          \* the application registers (or replaces) an executor at run time
+                                              !.tags = [n \in (DOMAIN @) \cup {e.name} |-> IF n = e.name THEN e.tag ELSE @[n]]]
+                             /\ UNCHANGED <<conn, store, conf>>
     [] e.ev = "sleep"     -> /\ store' = [d \in DOMAIN store |-> RM!Advance(store[d], e.ms)]      \* the model clock advances
                              /\ UNCHANGED <<conn, cfg, conf>>
     [] e.ev = "store"     -> (cfg.model => StoreDumpOK(e)) /\ UNCHANGED <<conn, cfg, store, conf>>
